@@ -45,20 +45,53 @@ def recipe(kind, p, t, rng, nvar, fam, local=True):
                          for pp, tt in vs]}
 
 
+def battery(m, kind):
+    """Operations that return NEW objects; results are discarded.  Afterwards the tables of `m` itself must still
+    agree with its cell list (a stale or corrupted cache / an operand written in place shows here)."""
+    import numpy as np
+    ops = [lambda: m.refined(), lambda: m.restrict(np.array([0])), lambda: m.translated((1.,) * m.p.shape[0]),
+           lambda: m.scaled((2.,) * m.p.shape[0]), lambda: m.with_subdomains({'s': np.array([0])}),
+           lambda: m.remove_elements(np.array([0])) if m.t.shape[1] > 1 else None]
+    if kind in ('tri', 'tet'):
+        ops += [lambda: m.oriented(), lambda: m.refined(np.array([0]))]
+    if kind == 'line':
+        ops += [lambda: m.refined(np.array([0]))]
+    if kind in ('tri', 'quad', 'tet', 'hex'):
+        ops += [lambda: m.mirrored((0.,) * m.p.shape[0], (1.,) + (0.,) * (m.p.shape[0] - 1))]
+    if kind == 'quad':
+        ops += [lambda: m.to_meshtri()]
+    if kind == 'hex':
+        ops += [lambda: m.to_meshtet()]
+    for op in ops:
+        try:
+            op()
+        except Exception:        # the operations themselves are judged by C12/C13/C18
+            pass
+
+
 def execute(rec):
     """Run the real code on a recipe; returns the event list."""
     events = []
     kind = rec['kind']
-    for v in rec['variants']:
+    for j, v in enumerate(rec['variants']):
         def call():
             m = U.make(kind, v['p'], v['t'])
-            return conn_event(m, with_coords=True, scale=1)
-        ev, err = guarded(call, 30)
+            ev1 = conn_event(m, with_coords=True, scale=1)
+            if j == 0 and rec.get('battery', True):
+                battery(m, kind)
+                # same object, after operations that must not touch it; err/shape problems are judged by the clauses
+                ev1['again'] = conn_event(m, with_coords=True, scale=1)
+            return ev1
+        ev, err = guarded(call, 60)
+        again = ev.pop('again', None) if isinstance(ev, dict) else None
         if err:
             ev = {'a': 'Conn', 'kind': kind, 'err': err, 'nv': 0, 't': [], 'lf': [], 'le': [], 'lfe': [], 'facets': [],
                   't2f': [], 'f2t': [], 'bfacets': [], 'bnodes': [], 'inodes': [], 'p2f': [], 'p2t': [], 'edges': [],
                   't2e': [], 'f2e': [], 'bedges': [], 'p2e': [], 'e2t': [], 'errs': [], 'p': [], 'scale': 0}
         events.append(ev)
+        if again is not None:
+            again['tags'] = {'phase': 'after-operations'}
+            events.append(again)
     return events
 
 
